@@ -12,42 +12,44 @@ NOT_APPLICABLE = {
     # property id -> reason (only for properties with no claimed check)
 }
 
-COMMON = ("functions are normalised first (private helpers inlined with tail-call/return handling, conditional expressions lowered) and "
-          "evaluated symbolically (locals, temporaries, comprehensions dissolved into terms over parameters/fields); rules match terms "
-          "and ask path questions (dominance, must-pass-through, flag-refined reachability) on a hand-built CFG")
+COMMON = ("functions are normalised first (private helpers, generator helpers and context managers dissolved; match statements, conditional "
+          "expressions and spelled-out iteration lowered) and evaluated symbolically (locals, temporaries, comprehensions, records dissolved "
+          "into terms over parameters/fields); rules match terms and ask path questions (dominance, must-pass-through, flag/sentinel-refined "
+          "reachability) on a hand-built CFG; thorough tier adds a sensitivity audit (recorded breakages/refactorings and anchor-function "
+          "mutants re-analysed statically on scratch copies; figures only)")
 TECH = {
     "C01": "CFG must-pass-through/dominance on Manager.set_value over symbolic call events; trigger-closure terms of find_tasks/find_taskids; "
-           "reverse-post-order DFS template on flag-refined paths; call-graph recursion check; in-place operator table",
+           "reverse-post-order DFS template on flag-refined paths; call-graph recursion check; in-place operator table; adopted: dependency read sets (C05), register/unregister inverse effects",
     "C02": "loop/term rules on run_tasks; DFS template; symbolic index-effect summary of register vs the docstring reference; inverse "
-           "effects with iteration-space (multiplicity) comparison",
+           "effects with iteration-space (multiplicity) comparison; adopted: task dependency sets are full read sets (C05)",
     "C03": "symbolic index-effect summaries of register/unregister compared as inverses incl. multiplicity; must-know path rule "
-           "(unregistered-or-absent) in set_value/load; RefCount semantics on terms",
-    "C04": "exhaustive table check on terms: dunder -> node class -> value term of _get_value against the Python data model",
+           "(unregistered-or-absent) in set_value/load; RefCount semantics on terms; order-insensitive self-check; no registration over a live one; trigger closure free of history-dependent state",
+    "C04": "exhaustive table check on terms: dunder -> node class -> value term of _get_value against the Python data model; navigation refuses only reserved names; _expr guarded",
     "C05": "slot flow on terms: slots read through _mk_value vs slots traversed, must-traverse on every path; path-sensitive nullness "
            "of the dispatch family; accumulator discipline",
-    "C06": "field-set agreement between _hash tuples and __repr__ terms, lossless rendering contexts, injective templates, __eq__ return terms",
+    "C06": "field-set agreement between _hash tuples and __repr__ terms, lossless rendering contexts, injective templates, __eq__ return terms; _hash stored only by __cinit__; steps recorded verbatim (navigation, assignment entry points)",
     "C07": "symbolic writer inventory of Table + CFG rule: every write that may hit the index column reaches an invalidation conditioned "
            "on nothing but the key; resolver/parser terms",
-    "C08": "selector as (conditions, returned term) pairs: nullness, bound roles, order of gathered positions, routing of rows/indices/mask",
+    "C08": "selector as (conditions, returned term) pairs: nullness, bound roles, order of gathered positions, routing of rows/indices/mask; range bounds only in element-wise comparisons",
     "C09": "CFG must-pass-through on Optimize.solve (good-branch formulation), handler ordering, typestate of the tolerance flag, "
-           "must-call in JacobianSolver.eval, reload store terms",
+           "must-call in JacobianSolver.eval, reload store terms; adopted: knobs left = point evaluated last (C15)",
     "C10": "call-signature conformance, enable/disable pairing on paths, guard conditions of knob stores, limit tests, mask plumbing and "
-           "post-masking stores on terms",
+           "post-masking stores on terms; ordering of temporary masks vs start-point logging and take_best reload; fresh limit arrays; clip scale = largest ratio",
     "C11": "repr completeness/precedence rules per node class; dump/load/copy_expr_from as terms (namespace accumulator, overwrite paths)",
-    "C12": "__reduce__ return terms vs __cinit__ parameter->field map on all paths; Manager pickle-safety incl. class-level state",
-    "C13": "generated source as a normalised string-template term (header, assignments, one schedule); gen_fun exec term; shared scheduler rules",
+    "C12": "__reduce__ return terms vs __cinit__ parameter->field map on all paths; Manager pickle-safety incl. class-level state; __getstate__ purity; default containers survive pickling (contents in the items slot)",
+    "C13": "generated source as a normalised string-template term (header, assignments, one schedule); gen_fun exec term; shared scheduler rules; adopted: unconditional store/propagation (C01), fresh evaluation of operands and callee (C04)",
     "C14": "freshness (escape) of column lists/data dicts reaching verify=False constructors on terms; uniform selection contributions; "
-           "row-axis concatenation; attribute existence; no source mutation",
+           "row-axis concatenation; attribute existence; no source mutation; whole-column rebinding only for new keys",
     "C15": "path-sensitive per-key append count over the step-loop body region and add_point_to_log; take_best window terms and "
-           "dominance of the start-point logging; row consistency",
-    "C16": "symbolic shape inference over terms; sympy identities on the scaling-map terms; Broyden secant-pair and finite-difference templates",
+           "dominance of the start-point logging; row consistency; log() built afresh; published result arrays not modified afterwards; adopted: tolerance flag (C09), committed = last evaluated (C10)",
+    "C16": "symbolic shape inference over terms; sympy identities on the scaling-map terms; Broyden secant-pair and finite-difference templates; truncation options are this call's; adopted: limits through the knob->x map (C10)",
     "C17": "frozen-guard conditions of every symbolic index effect, interprocedural fixpoint over Manager methods; who-may-write; "
            "refuse-before-write ordering; fresh schedule",
-    "C18": "handler inventory on the update path; no manager-state effects while running; retry re-runs everything (must-pass rules)",
+    "C18": "handler inventory on the update path; no manager-state effects while running; retry re-runs everything (must-pass rules); no task under iterator adaptors; adopted: DFS template",
     "C19": "lark parse of the grammar constant: alias/callback exhaustiveness, operator agreement; evaluator wiring and statelessness on terms; "
-           "shared operand-algebra and dependency rules",
+           "shared operand-algebra and dependency rules; adopted: navigation",
     "C20": "__cinit__ order-independence and signature agreement along each MRO; enforced-type annotations; compiled-branch inventory; "
-           "set-typed iteration terms reaching order-sensitive sinks",
+           "set-typed iteration terms reaching order-sensitive sinks; build-independent routing in __setattr__ (path signatures); C-typed fields/locals; no ordering on hash values; adopted: inverse effects and trigger closure",
 }
 
 
